@@ -279,7 +279,16 @@ class Machine:
 
     def write(self, env, place, val):
         env = dict(env)
+        if not hasattr(self, 'alias'):
+            self.alias = {}
         if not place['proj']:
+            # a reference to an object some other local already refers to (reborrow `&mut *self` handed to a spliced helper):
+            # remember that both name the same object, so that a field write through one is seen through the other
+            if val and val[0] == 'ref' and val[1] and val[1][0] == 'obj':
+                for y, vy in env.items():
+                    if y != place['l'] and vy and vy[0] == 'ref' and vy[1] is val[1]:
+                        self.alias[place['l']] = self.alias.get(y, y)
+                        break
             env[place['l']] = val
             return env
         # (*_1).field = val
@@ -293,7 +302,13 @@ class Machine:
             raise Unsupported('field write into %s' % obj[0])
         d = dict(obj[1])
         d[pr[0]['name']] = val
-        env[place['l']] = ('ref', ('obj', d)) if wrapped else ('obj', d)
+        newobj = ('obj', d)
+        env[place['l']] = ('ref', newobj) if wrapped else newobj
+        if wrapped:
+            root = self.alias.get(place['l'], place['l'])
+            for y in list(env.keys()):
+                if y != place['l'] and (y == root or self.alias.get(y) == root) and env[y] and env[y][0] == 'ref':
+                    env[y] = ('ref', newobj)
         return env
 
     def arith(self, op, a, b, ty, line, checked):
